@@ -418,7 +418,7 @@ func Build(spec *Spec) *Capture {
 	if spec.Jumble {
 		for _, f := range capt.Files {
 			j := 0
-			for j+1 < len(f) && j < 5 && f[j+1].Conv != f[0].Conv && f[j+1].TimeUS > f[j].TimeUS {
+			for j+1 < len(f) && j < 12 && f[j+1].Conv != f[0].Conv && f[j+1].TimeUS > f[j].TimeUS {
 				j++
 			}
 			if j > 0 {
